@@ -19,7 +19,7 @@
 (*   Res      every execution of request req -- under any configuration, from any thread -- leaves *)
 (*            the same bytes (ref persists across Reset); pixman_fill / pixman_blt: the same      *)
 (*            bytes as every other successful execution, or FALSE and the buffer untouched.      *)
-EXTENDS Dispatch, TraceIO, SequencesExt
+EXTENDS Dispatch, Threads, TraceIO, SequencesExt
 
 VARIABLES l, tables, anyOp, anyFmt,
           caches,     \* cache address -> cache contents under the most-recently-used policy of Dispatch.tla
@@ -27,9 +27,11 @@ VARIABLES l, tables, anyOp, anyFmt,
           owner,      \* cache address -> tid
           shared,     \* set of shared image addresses
           livethr,    \* set of live worker threads
+          acc,        \* Threads.tla access log of the worker threads (all alive side by side): cache cells, and the
+                      \* dirty / derived / refs cells of the shared images
           ref         \* req -> bytes of the first execution seen (persists across configurations)
 
-tvars == <<l, tables, anyOp, anyFmt, caches, mru, owner, shared, livethr, ref>>
+tvars == <<l, tables, anyOp, anyFmt, caches, mru, owner, shared, livethr, acc, ref>>
 
 Ev == TraceLog[l]
 Is(e) == l <= TraceLen /\ TraceLog[l].e = e
@@ -43,19 +45,19 @@ KeyOf(e) == [op |-> e.op, sf |-> e.sf, mf |-> e.mf, df |-> e.df,
 
 TReset == /\ Is("Reset")
           /\ tables' = <<>> /\ anyOp' = 0 /\ anyFmt' = <<>> /\ caches' = <<>> /\ mru' = mru /\ owner' = <<>>
-          /\ shared' = {} /\ livethr' = {} /\ UNCHANGED ref /\ Adv
+          /\ shared' = {} /\ livethr' = {} /\ acc' = NoAccess /\ UNCHANGED ref /\ Adv
 
 TTables == /\ Is("Tables")
            /\ tables' = [i \in DOMAIN Ev.imps |-> [j \in DOMAIN Ev.imps[i] |-> Entry(Ev.imps[i][j])]]
            /\ anyOp' = Ev.any_op /\ anyFmt' = Ev.any_fmt
-           /\ UNCHANGED <<caches, mru, owner, shared, livethr, ref>> /\ Adv
+           /\ UNCHANGED <<caches, mru, owner, shared, livethr, acc, ref>> /\ Adv
 
 TSpawn == /\ Is("Spawn") /\ livethr' = livethr \cup {Ev.tid}
-          /\ UNCHANGED <<tables, anyOp, anyFmt, caches, mru, owner, shared, ref>> /\ Adv
+          /\ UNCHANGED <<tables, anyOp, anyFmt, caches, mru, owner, shared, acc, ref>> /\ Adv
 TJoin  == /\ Is("Join") /\ livethr' = livethr \ {Ev.tid}
-          /\ UNCHANGED <<tables, anyOp, anyFmt, caches, mru, owner, shared, ref>> /\ Adv
+          /\ UNCHANGED <<tables, anyOp, anyFmt, caches, mru, owner, shared, acc, ref>> /\ Adv
 TShared == /\ Is("Shared") /\ shared' = SetOf(Ev.imgs)
-           /\ UNCHANGED <<tables, anyOp, anyFmt, caches, mru, owner, livethr, ref>> /\ Adv
+           /\ UNCHANGED <<tables, anyOp, anyFmt, caches, mru, owner, livethr, acc, ref>> /\ Adv
 
 (* The fast-path cache is judged at the level the properties state (C02: the same pixels whichever implementation *)
 (* serves; C16: no interference between threads).  Every table entry must be correct for every key it matches - the  *)
@@ -88,19 +90,25 @@ TLookup ==
            /\ (mru /\ ~exact) => PrintT(<<"VF:policy", "first-match/MRU", l>>)
            /\ caches' = IF exact THEN (a :> LookupCache(c, tables, key, anyOp, anyFmt)) @@ caches ELSE caches
            /\ owner' = (a :> Ev.tid) @@ owner
+           /\ acc' = IF Ev.tid # 0 THEN LogLookup(acc, Ev.tid, a) ELSE acc
+           /\ ~RacedCell(acc', <<"cache", a>>)               \* Threads.tla: no cache cell is touched by two workers
     /\ UNCHANGED <<tables, anyOp, anyFmt, shared, livethr, ref>> /\ Adv
 
 TValidate == /\ Is("Validate")
              /\ (Ev.tid # 0 /\ Ev.img \in shared) => ~Ev.dirty
+             /\ acc' = IF Ev.tid # 0 /\ Ev.img \in shared THEN LogValidate(acc, Ev.tid, Ev.img, Ev.dirty) ELSE acc
+             /\ ~RacedCell(acc', <<"dirty", Ev.img>>) /\ ~RacedCell(acc', <<"derived", Ev.img>>)
              /\ UNCHANGED <<tables, anyOp, anyFmt, caches, mru, owner, shared, livethr, ref>> /\ Adv
 
 (* a change of the reference count of a shared image (hook H4, reported for shared images only) is a write to  *)
 (* that image: only the main thread may do it                                                                  *)
 TRefShared == /\ Is("RefShared") /\ Ev.tid = 0
+              /\ acc' = IF Ev.tid # 0 THEN LogRef(acc, Ev.tid, Ev.img) ELSE acc
+              /\ ~RacedCell(acc', <<"refs", Ev.img>>)
               /\ UNCHANGED <<tables, anyOp, anyFmt, caches, mru, owner, shared, livethr, ref>> /\ Adv
 
 TDispatch == /\ Is("Dispatch")
-             /\ UNCHANGED <<tables, anyOp, anyFmt, caches, mru, owner, shared, livethr, ref>> /\ Adv
+             /\ UNCHANGED <<tables, anyOp, anyFmt, caches, mru, owner, shared, livethr, acc, ref>> /\ Adv
 
 TRes ==
     /\ Is("Res")
@@ -114,10 +122,10 @@ TRes ==
                  /\ ref' = IF r \in DOMAIN ref THEN ref ELSE (r :> Ev.bytes) @@ ref
             ELSE /\ Ev.bytes = Ev.before
                  /\ UNCHANGED ref
-    /\ UNCHANGED <<tables, anyOp, anyFmt, caches, mru, owner, shared, livethr>> /\ Adv
+    /\ UNCHANGED <<tables, anyOp, anyFmt, caches, mru, owner, shared, livethr, acc>> /\ Adv
 
 TInit == /\ l = 1 /\ tables = <<>> /\ anyOp = 0 /\ anyFmt = <<>> /\ caches = <<>> /\ mru = TRUE /\ owner = <<>>
-         /\ shared = {} /\ livethr = {} /\ ref = <<>>
+         /\ shared = {} /\ livethr = {} /\ acc = NoAccess /\ ref = <<>>
 TNext == TReset \/ TTables \/ TSpawn \/ TJoin \/ TShared \/ TLookup \/ TValidate \/ TRefShared \/ TDispatch \/ TRes
 TSpec == TInit /\ [][TNext]_tvars
 =============================================================================
